@@ -67,6 +67,13 @@ POISON = [
     "\tcpu nosuchcpu", "\tend", "\tinclude \"gone.inc\"", "K1\tequ 99", "\t{db} 1,2,3",
     "\tnosuchmacro a,b", "\tbinclude \"gone.bin\"", "\tsave", "\tendsection", "\t{db} nowhere+1", "\tphase 77",
     "\tPM", "\t{db} \"unterminated", "\tinclude \"poison.inc\"",
+    # blocks: consumed as a whole in skipped text, conditional statements inside them stay invisible
+    ["\trept 2", "\t{db} 249", "\tendm"],
+    ["\trept 2", "\tif 1", "\t{db} 249", "\tendif", "\tendm"],
+    ["\tirp PX,1,2", "\t{db} PX", "\tendm"],
+    ["\twhile 1", "\t{db} 249", "\tendm"],
+    ["PM\tmacro", "\t{db} 248", "\tendm"],
+    ["PN\tmacro", "\tif 1", "\t{db} 248", "\tendif", "\tendm", "\tPN"],
 ]
 # erroneous single-argument expressions; rendered only as conditions of constructs in skipped text
 PCOND = ["nowhere+1", "1/0", "\"text\"", "3.5", "(5", "K1 K1", "undefd(3)", "NIX", "K1+"]
@@ -223,6 +230,8 @@ class Walker:
         self.cur_active = True
         self.args = None              # macro arguments of the running expansion
         self.live = set()             # leaf ids that were assembled at least once
+        self.in_rept = 0
+        self.mdef = None              # marker of the LM<item> macro definition that took effect
         self.lc = 0
         self.ninc = 0
         self.item = 0
@@ -348,8 +357,21 @@ class Walker:
                 # leaf is visited exactly once; a macro body is rendered after all its calls were interpreted
                 dead = (not active) if self.interp else (k not in self.live)
                 if dead:
-                    self.emit(POISON[el["po"] % len(POISON)].replace("{db}", self.t["db"]))
+                    po = POISON[el["po"] % len(POISON)]
+                    for line in ([po] if isinstance(po, str) else po):
+                        self.emit(line.replace("{db}", self.t["db"]))
                     self.stats["poison"] += 1
+            if el.get("md") and self.interp and (not active or self.mdef is None):
+                # every such leaf of an item defines the same macro LM<item> with its own marker; only a
+                # definition in assembled text may take effect (and at most one is rendered there)
+                self.emit("LM%d\tmacro" % self.item)
+                self.stmt("if", "K1")
+                self.db(str(k))
+                self.stmt("endif")
+                self.emit("\tendm")
+                if active:
+                    self.mdef = k
+                self.stats["kinds"].add("macro-def-live" if active else "macro-def-skipped")
             if el.get("x"):
                 self.stmt("exitm")
         if self.interp and active:
@@ -453,7 +475,7 @@ class Walker:
         if self.interp and active and not found and n.get("el") is None:
             self.wcount += 1
             self.stats["warn"] += 1
-            if self.render:
+            if self.render and not self.in_rept:
                 self.warn.append((self.cur_name, len(self.cur)))
         self.stack.pop()
 
@@ -476,9 +498,11 @@ class Walker:
         self.stmt("rept", "1")
         save = self.stack
         self.stack = []
+        self.in_rept += 1
         try:
             self.walk(n["b"], active, depth)
         finally:
+            self.in_rept -= 1
             self.stack = save
             self.stmt("endm")
 
@@ -531,8 +555,8 @@ def item_size(item):
     n = len(leaves_of(item["body"]))
     if item.get("loop"):
         lp = item["loop"]
-        return 2 * n * (len(lp["vals"]) if lp["k"] == "irp" else lp["n"]) + 4
-    return 3 * n + 6
+        return 2 * n * (len(lp["vals"]) if lp["k"] == "irp" else lp["n"]) + 5
+    return 3 * n + 8
 
 
 def slot_size(item):
@@ -580,8 +604,12 @@ class Program:
                 w.emit("\torg\t%d" % base)
                 w.out = []
                 w.render, w.interp = True, True
+                w.mdef = None
                 w.walk(it["body"], True)
                 self._probes(idx, it, it.get("pf", 0))
+                if w.mdef is not None:
+                    w.emit("\tLM%d" % idx)
+                    w.out.append(w.mdef)
                 w.db(str(SENTINEL))
                 w.out.append(SENTINEL)
                 self._place(idx, 0, base, w.out)
@@ -645,7 +673,9 @@ class Program:
                 w.out.append(128 + k)
 
     # -- wrappers around a macro call / loop: [["I", truth], ["S", truth]...] (outermost first)
-    def _wrap_open(self, wr):
+    def _wrap_open(self, wr, tag=""):
+        """wrappers around a macro call / loop, outermost first: ["I", truth] = IF, ["S", truth] = SWITCH/CASE,
+        ["M", 1] = an outer macro whose body is 'IF 1 / <call> / sentinel / ENDIF / sentinel' (innermost only)"""
         w = self.w
         act = True
         for ty, t in wr:
@@ -653,15 +683,18 @@ class Program:
             if ty == "I":
                 w.stmt("if", ["0", "1"][t] if (w.lc % 2) else ["K0", "(K5>1)"][t], "open")
                 w.stack.append(["I", 0, act])
-            else:
+            elif ty == "S":
                 w.stmt(w.t["sw"], "1", "open")
                 w.stack.append(["S", 0, act])
                 w.stmt("case", "1" if t else "2", "mid")
+            else:
+                w.emit("OW%s\tmacro" % tag)
+                w.stmt("if", "K1")
             act = act and bool(t)
         w.cur_active = act
         return act
 
-    def _wrap_close(self, wr):
+    def _wrap_close(self, wr, tag=""):
         w = self.w
         acts = [True]
         for ty, t in wr:
@@ -670,13 +703,24 @@ class Program:
             ty, t = wr[i]
             if ty == "I":
                 w.stmt("endif", "", "close")
-            else:
+                w.stack.pop()
+            elif ty == "S":
                 w.stmt("elsecase", "", "mid")
                 w.stack[-1][1] = 1
                 w.cur_active = acts[i] and not t
                 w.stmt("endcase", "", "close")
-            w.stack.pop()
+                w.stack.pop()
+            else:
+                w.stmt("endif")
+                w.db(str(SENTINEL - 2))
+                w.emit("\tendm")
+                w.emit("\tOW%s" % tag)
             w.cur_active = acts[i]
+
+    @staticmethod
+    def _wrap_tail(wr):
+        """sentinels assembled behind an executed call, inside the wrappers"""
+        return [SENTINEL, SENTINEL - 2] if any(ty == "M" for ty, _ in wr) else [SENTINEL]
 
     def _macro_item(self, idx, it, base, size):
         w = self.w
@@ -701,8 +745,10 @@ class Program:
                     w.args = None
                     w.local = None
                     w.stack = []
-                w.out.append(SENTINEL)
+                w.out += self._wrap_tail(wrs[ci])
                 w.stats["kinds"].add("call-depth%d" % len(wrs[ci]))
+                if any(ty == "M" for ty, _ in wrs[ci]):
+                    w.stats["kinds"].add("call-in-macro")
             elif wrs[ci]:
                 w.stats["kinds"].add("call-skipped")
             outs.append(w.out)
@@ -721,7 +767,7 @@ class Program:
         for ci, args in enumerate(m["calls"]):
             w.cur_active = True
             w.emit("\torg\t%d" % base)
-            self._wrap_open(wrs[ci])
+            self._wrap_open(wrs[ci], "%d_%d" % (idx, ci))
             a = list(args)
             if it.get("kw"):
                 a = ["%s=%s" % (PARAMS[i], v) for i, v in enumerate(a) if v != ""]
@@ -733,7 +779,7 @@ class Program:
                     a.pop()
             w.emit("\t%s\t%s" % (name, ",".join(a)) if a else "\t" + name)
             w.db(str(SENTINEL))
-            self._wrap_close(wrs[ci])
+            self._wrap_close(wrs[ci], "%d_%d" % (idx, ci))
             w.db(str(SENTINEL - 1))
             self._place(idx, ci, base, outs[ci] + [SENTINEL - 1])
             base += size
@@ -758,14 +804,14 @@ class Program:
                 pass
             w.args = None
             w.stack = []
-            w.out.append(SENTINEL)
+            w.out += self._wrap_tail(wr)
             w.stats["kinds"].add(lp["k"])
         out = w.out
         w.render, w.interp = True, False
         w.cur_active = True
         w.emit("\torg\t%d" % base)
         w.interp = True
-        self._wrap_open(wr)
+        self._wrap_open(wr, "%d_0" % idx)
         w.interp = False
         if lp["k"] == "irp":
             w.stmt("irp", "QA," + ",".join(_num(v) for v in vals))
@@ -778,7 +824,7 @@ class Program:
         w.stmt("endm")
         w.interp = True
         w.db(str(SENTINEL))
-        self._wrap_close(wr)
+        self._wrap_close(wr, "%d_0" % idx)
         w.db(str(SENTINEL - 1))
         self._place(idx, 0, base, out + [SENTINEL - 1])
         w.render, w.interp = True, True
